@@ -106,6 +106,8 @@ def _serve_weight(h):
     if n.startswith("prep_unit_"):
         return 1.5
     honoured = "_absent" in n or ("_same" in n and ("_estrong_" in n or "_ecomma_" in n))
+    if n.startswith("serve_multi_") and honoured and not n.endswith(("_req", "_rev", "_forb", "_mid")):
+        return 7  # all-symbolic multi-range instance (thorough tier): up to 27 GB
     if (n.startswith("serve_single_") and honoured) or (n.startswith("serve_multi_") and honoured):
         return 5
     return 2
